@@ -192,11 +192,23 @@ type key struct {
 	id  byte
 }
 
+// reservation: a reliable tube of the muxer's parity was closed at t0 (its sender's round-trip
+// estimate was rtt then); the reaper keeps it in the map for 4*RTT
+type reservation struct {
+	t0  time.Time
+	rtt time.Duration
+}
+
 type session struct {
 	conn  *ScriptConn
 	mux   *tubes.Muxer
 	held  map[key]tubes.Tube
 	stopd bool
+	// reserved: tubes closed by `shut` whose reaper has not been waited for yet
+	reserved map[key]reservation
+	// void: the machine was so slow that a reservation may have run out while operations that
+	// depend on it were still to come: the rest of the case is not compared (<skipped>)
+	void bool
 	// wedged: the receiver did not come back from a datagram; later feeds answer at once and
 	// Stop gets a short watchdog (a wedged receiver holds the muxer lock)
 	wedged bool
@@ -352,8 +364,73 @@ func (s *session) waitGone(k key) bool {
 	return true
 }
 
+// closeHandshake drives a reliable tube to the closed state, playing the peer.
+func (s *session) closeHandshake(k key, x *tubes.Reliable, st int) bool {
+	if st == stInitiated {
+		ws := x.VerifRecvWindowStart()
+		if !s.feed(Frame(k.id, "LF", 0, uint32(ws), nil)) {
+			return false
+		}
+	}
+	x.Close()
+	fn := x.VerifSenderFrameNo()
+	return s.feed(Frame(k.id, "LA", fn, 0, nil))
+}
+
+// shut closes a reliable tube with an identifier of the muxer's parity and does NOT wait for the
+// reaper: the tube stays in the map, its identifier reserved, for 4*RTT (`reap` waits for the end).
+func (s *session) shut(k key) string {
+	t, ok := s.held[k]
+	if !ok {
+		return "no"
+	}
+	x, isRel := t.(*tubes.Reliable)
+	st := tubeState(t)
+	if !isRel || k.id%2 != s.mux.VerifIDParity() || (st != stInitiated && st != stCloseWait) {
+		return "no"
+	}
+	res := reservation{rtt: x.VerifRTT(), t0: time.Now()}
+	if !s.closeHandshake(k, x, st) {
+		return "blocked"
+	}
+	done := make(chan struct{})
+	go func() { x.WaitForClose(); close(done) }()
+	select {
+	case <-done:
+	case <-time.After(ReapWatchdog):
+		return "stuck"
+	}
+	delete(s.held, k)
+	if s.reserved == nil {
+		s.reserved = map[key]reservation{}
+	}
+	s.reserved[k] = res
+	return "ok"
+}
+
+// checkReservations: see session.void.  The reaper waits 4*RTT' where RTT' is the estimate after
+// the close handshake (at least (7/8)^2 of the one read before it); operations are only judged
+// while less than 2*rtt have passed.
+func (s *session) checkReservations() {
+	for _, r := range s.reserved {
+		if time.Since(r.t0) > 2*r.rtt {
+			s.void = true
+		}
+	}
+}
+
 // reap drives the tube through its close handshake, playing the peer, and waits for the reaper.
 func (s *session) reap(k key) string {
+	if r, ok := s.reserved[k]; ok {
+		delete(s.reserved, k)
+		if !s.waitGone(k) {
+			return "stuck"
+		}
+		if time.Since(r.t0) < r.rtt {
+			return "early"
+		}
+		return "ok"
+	}
 	t, ok := s.held[k]
 	if !ok {
 		return "no"
@@ -408,6 +485,9 @@ func Exec(in *bufio.Scanner, out *bufio.Writer) {
 	for in.Scan() {
 		f := strings.Fields(in.Text())
 		res := "bad-op"
+		if s != nil {
+			s.checkReservations()
+		}
 		switch {
 		case len(f) == 2 && f[0] == "new":
 			p, err := strconv.Atoi(f[1])
@@ -417,6 +497,8 @@ func Exec(in *bufio.Scanner, out *bufio.Writer) {
 				res = "ok"
 			}
 		case s == nil || s.stopd:
+		case s.void && f[0] != "stop":
+			res = "<skipped>"
 		case s.wedged && f[0] != "stop":
 			// the receiver is stuck (possibly holding the muxer lock): nothing else is attempted
 			res = "wedged"
@@ -527,6 +609,10 @@ func Exec(in *bufio.Scanner, out *bufio.Writer) {
 		case len(f) == 3 && f[0] == "reap":
 			if k, ok := parseKey(f[1], f[2]); ok {
 				res = s.reap(k)
+			}
+		case len(f) == 3 && f[0] == "shut":
+			if k, ok := parseKey(f[1], f[2]); ok {
+				res = s.shut(k)
 			}
 		case len(f) == 3 && f[0] == "has":
 			if k, ok := parseKey(f[1], f[2]); ok {
